@@ -516,6 +516,23 @@ class Interp:
         return TOP
 
     @staticmethod
+    def bytes_guarded(e, fr) -> bool:
+        """Some `if … isinstance(<x>.value, bytes) …: raise` precedes the construction in the same function."""
+        if fr.root is None:
+            return False
+        for n in ast.walk(fr.root):
+            if isinstance(n, ast.If) and n.lineno < getattr(e, "lineno", 0):
+                hit = any(isinstance(c, ast.Call) and isinstance(c.func, ast.Name) and c.func.id == "isinstance" and len(c.args) == 2
+                          and norm_stmt(c.args[1]) == "bytes" and norm_stmt(c.args[0]).endswith(".value") for c in ast.walk(n.test))
+                last = n.body[-1]
+                leaves = isinstance(last, ast.Raise) or (isinstance(last, ast.Expr) and isinstance(last.value, ast.Call)
+                                                        and isinstance(last.value.func, ast.Attribute)
+                                                        and last.value.func.attr.startswith("raise_"))
+                if hit and leaves:
+                    return True
+        return False
+
+    @staticmethod
     def kind_guarded(e, fr) -> bool:
         """`left + right` is preceded, in the same function, by `if <isinstance(left, bytes) vs isinstance(right, bytes)>: raise`."""
         if fr.root is None or not isinstance(e, (ast.BinOp, ast.AugAssign)):
@@ -1905,6 +1922,13 @@ class Interp:
             if child in given:
                 sub = sub | self.deep_of(given[child])
         shape = self.shape_of(cls, sig, given)
+        if cls == "JoinedStr" and "values" in given:
+            risky = any(isinstance(m, Node) and m.cls == "Constant" and m.shape and "value=<PyConst>" in m.shape
+                        for lv in members(given["values"]) if isinstance(lv, ListV) for m in members(lv.elem))
+            if risky:
+                self.emit("S1-joinedstr-bytes", site, "ok" if self.bytes_guarded(e, fr) else "fail", where,
+                          "a constant evaluated from a string literal (possibly a bytes literal) becomes a part of a JoinedStr without "
+                          "a preceding `isinstance(.., bytes)` rejection: `b'x' f'{a}'` is accepted and yields a tree compile() refuses")
         if self.ctor_hook is not None:
             self.ctor_hook(cls, given, kwargs, fr, e)
         locsrc = ()
